@@ -283,7 +283,9 @@ func RunCase(p *Property, tier string, idx int, seed int64, scratch string, isRa
 	if err := os.MkdirAll(dir, 0755); err != nil {
 		panic(err)
 	}
-	defer os.RemoveAll(dir)
+	// zenodb's WAL reader goroutines outlive DB.Close() and panic the process if their directory
+	// disappears, so only the files are removed here; the parent removes the scratch root at the end
+	defer removeFilesKeepDirs(dir)
 	res = &CaseResult{Case: idx, Seed: seed, Verdict: Held, Obs: map[string]int64{}, Race: isRace}
 	c := &Ctx{Prop: p, Case: idx, Seed: seed, Tier: tier, Rand: rand.New(rand.NewSource(seed)), Dir: dir, IsRace: isRace, res: res}
 	start := time.Now()
@@ -963,3 +965,12 @@ func NewDebugCtx(p *Property, tier string, idx int, dir string) *Ctx {
 
 // DebugResult exposes the case result of a debug context.
 func (c *Ctx) DebugResult() *CaseResult { return c.res }
+
+func removeFilesKeepDirs(dir string) {
+	filepath.Walk(dir, func(path string, info os.FileInfo, err error) error {
+		if err == nil && !info.IsDir() {
+			os.Remove(path)
+		}
+		return nil
+	})
+}
